@@ -161,6 +161,10 @@ fn main() {
             w_misc::run_ctor_table(&args, &mut rep);
             true
         }
+        "limit_edge" => {
+            w_misc::run_limit_edge(&args, &mut rep);
+            true
+        }
         "limit_twin" => {
             w_misc::run_limit_twin(&args, &mut rep);
             true
